@@ -44,3 +44,24 @@ def check(ctx, rule, f, B, fields=None, **kw):
     ctx.add(rule, B.path, loc(B.root), not bad,
             'the function waits (await) after moving %s out of the object: if the pending future is dropped there (select!, an outer timeout), the object is left without it and the next call panics or loses the rest of the stream' % sorted(bad))
     return n_await
+
+
+def fields_bracketed_around_await(o, self_term):
+    """[(field, value at the await)] for every field of self that is written before an await, does not hold its entry value when
+    the await is reached, and is written again after it: a change meant to last only while the awaited callee runs (a chain
+    position, a depth counter, a busy flag).  If the pending future is dropped at that await the second write never happens and the
+    object keeps the temporary value."""
+    out = []
+    cur = {}              # field -> value after the last store so far
+    ev = list(o.st.ev)
+    for i, e in enumerate(ev):
+        if e[0] == 'store' and e[1][0] == 'field' and e[1][1] == self_term:
+            cur[e[1][2]] = e[2]
+        elif e[0] == 'await':
+            for fld, val in cur.items():
+                if sem.strip_site(val) == ('field', self_term, fld):
+                    continue
+                later = any(x[0] == 'store' and x[1][0] == 'field' and x[1][1] == self_term and x[1][2] == fld for x in ev[i + 1:])
+                if later and (fld, absx.fmt(val)[:40]) not in out:
+                    out.append((fld, absx.fmt(val)[:40]))
+    return out
